@@ -217,7 +217,7 @@ func handleLine(cur **Contract, out *[]*Contract, pkgPath, text, line string) er
 	if kw == "spec" || kw == "ghost" || kw == "frame" || kw == "owned" {
 		return nil
 	}
-	if kw == "copy" || kw == "lanes8" || kw == "readonly" || kw == "storesvia" {
+	if kw == "copy" || kw == "lanes8" || kw == "readonly" || kw == "storesvia" || kw == "unrolled" {
 		*cur = nil
 		return nil
 	}
